@@ -1,5 +1,5 @@
 From Coq Require Import ZArith List Bool Arith.
-From PV Require Import Base.U64 E3.E3_Run C05.C05_Asym C05.C05_AsymProofs C05.C05_Model C05.C05_Proofs C05.C05_Proofs2 C05.C05_Proofs3 C05.C05_Proofs4.
+From PV Require Import Base.U64 E3.E3_Run C05.C05_Asym C05.C05_AsymProofs C05.C05_Model C05.C05_Proofs C05.C05_Proofs2 C05.C05_Proofs3 C05.C05_Proofs4 C05.C05_Pool C05.C05_PoolProofs.
 Import ListNotations.
 
 (* ---- asymmetric_spinLock (the run-queue lock) ------------------------------------------------- *)
@@ -96,3 +96,24 @@ Theorem nthreads_restored : forall progs nv n flags t0 s, (nv <= n)%nat -> reach
        v_nthreads (s_vc s v) = v_nthreads (s_vc (init_state nv n flags t0) v)).
 Proof. exact nthreads_proof. Qed.
 Print Assumptions nthreads_restored.
+
+(* ---- ThreadPoolBase hand-shake (thread-pool.cpp 33-139), one control block, any number of rounds ---- *)
+(* the repaired code (repo_patches/C05-fix-pool-join-interrupt.diff): for EVERY schedule, interrupts of the waiting threads
+   included: no join returns before the pooled entry function returned, the block is never put twice nor re-used while
+   work is running, every work item runs at most once, a join returns at most once and only after the work is done, and when
+   the pooled thread is idle with an empty block every work item handed to the pool has run exactly once *)
+Theorem pool_exact_fixed : forall ls, pool_safe (prun true pinit ls).
+Proof. exact pool_exact_fixed_proof. Qed.
+Print Assumptions pool_exact_fixed.
+
+(* the code as it is: the same, provided no thread is interrupted while it waits inside the hand-shake *)
+Theorem pool_exact_nointr : forall ls, forallb no_interrupt ls = true -> pool_safe (prun false pinit ls).
+Proof. exact pool_exact_nointr_proof. Qed.
+Print Assumptions pool_exact_nointr.
+
+(* the code as it is, with an interrupt of the joining thread: finding F24 *)
+Theorem pool_join_refuted :
+  p_early (prun false pinit f24_witness) = true /\ p_done (prun false pinit f24_witness) 0 = false /\
+  p_joined (prun false pinit f24_witness) 0 = 1%nat /\ p_reuse (prun false pinit f24_witness2) = true.
+Proof. exact pool_join_refuted_proof. Qed.
+Print Assumptions pool_join_refuted.
